@@ -1086,10 +1086,13 @@ def check_close(ctx, rep, rng, tier):
     """handlers that block briefly; the reporter is held until close() so that the whole account is owed at close()"""
     model = ctx["model"]
     workdir = ctx["workdir"]
-    scen = [(3, 50), (8, 50), (100, 5)] if tier == "quick" else [(3, 50), (5, 20), (8, 50), (100, 5), (300, 2), (12, 100)]
+    scen = [(3, 30), (8, 50), (100, 5)] if tier == "quick" else [(3, 30), (5, 20), (8, 50), (100, 5), (300, 2), (12, 100)]
     res = []
     for n, d in scen:
         r = timing_case(workdir, n, d)
+        for _ in range(2):       # far below the limit: a failure must persist (a loaded machine stretches sleeps)
+            if n * 3 * d / 1000.0 < 0.6 and (r["close_exc"] or r["delivered_after"]):
+                r = timing_case(workdir, n, d)
         unit = d * 1024 // 1000 + 1
         pred = model.call("ev_close", [0, [[0, unit]] * r["events"], 0]) if model is not None else None
         r["model"] = pred
